@@ -69,6 +69,28 @@ theorem depth_cut_include (E : Env) (hl : E.lax = false) (R : String → Prop)
     (render E c s (.include n)).out = .err .contextDepth :=
   include_family_cut E hl R hclosed _ c s n hn hni rfl
 
+/-- **Recursion through a macro is cut off with ContextDepthError** (STRICT mode).  `R`: template names whose bodies
+define a macro — its body beginning, at any block depth, with a `render` of a member — and then call it, at any block
+depth (two context copies per cycle: the `render` and the `call`). -/
+theorem depth_cut_call (E : Env) (hl : E.lax = false) (R : String → Prop)
+    (hclosed : ∀ n, R n → ∃ m ws' n' post' ws post,
+      lookup E.templates n = some (.macro m (nest ws' (.render n') :: post') :: nest ws (.call m) :: post) ∧ R n')
+    (c : Cx) (s : St) (n : String) (hn : R n) :
+    (render E c s (.render n)).out = .err .contextDepth :=
+  call_family_cut E hl R hclosed _ c s n hn rfl
+
+/-- **Recursion through a `block` rendered directly is cut off with ContextDepthError** (STRICT mode, `include` and
+`block` not disabled, no block stacks stored).  `R`: template names whose bodies begin, at any block depth, with a
+`block` whose body begins, at any block depth, with an `include` of a member (three scope pushes per cycle).
+Recursion through an *overriding* block (extends + block + render/include) is covered by `context_depth_bounded` and the
+`families` stream only. -/
+theorem depth_cut_block (E : Env) (hl : E.lax = false) (R : String → Prop)
+    (hclosed : ∀ n, R n → ∃ ws0 bn ws n' post post0,
+      lookup E.templates n = some (nest ws0 (.block bn (nest ws (.include n') :: post)) :: post0) ∧ R n')
+    (c : Cx) (s : St) (n : String) (hn : R n) (hni : c.noInclude = false) (hnb : c.noBlock = false) (hst : s.stacks = []) :
+    (render E c s (.include n)).out = .err .contextDepth :=
+  block_family_cut E hl R hclosed _ c s n hn hni hnb hst rfl
+
 /-- **Circular `extends` is cut off with TemplateInheritanceError.**  `R` is a set of templates each with exactly
 one `extends` whose parent loads and is again in `R` (every `extends` cycle).  Rendering the `extends` tag of a
 member — whatever the context, the block stacks already stored, the mode — raises TemplateInheritanceError:
@@ -124,6 +146,19 @@ theorem lax_cut_counterexample (D : Nat) (h4 : 4 ≤ D) :
   have h1 : 1 ≤ 2 ^ (D + 1) := Nat.one_le_two_pow
   have h2 : 2 ^ (D + 2) = 2 ^ (D + 1) * 2 := by rw [Nat.pow_succ]
   omega
+
+/-- **The LAX fan-out, quantitatively.**  The partial `a` = `{{ 1 | probe }}` followed by `f` self-renders, LAX/WARN
+mode, any limit ≥ 4: the render returns `ok` after exactly `1 + f + f² + … + f^(limit+1)` probe executions
+(`geom f (limit+2)`), i.e. `(f^(limit+2) − 1)/(f − 1)` for `f ≥ 2` (second conjunct: `(f−1)·count + 1 = f^(limit+2)`).
+So the work in LAX mode *is* bounded — by this geometric sum — but the bound is exponential in the limit that was
+meant to cut recursion off; `f = 1` gives the linear `limit + 2`, `f = 2` the `2^(limit+2) − 1` of
+`lax_cut_counterexample`. -/
+theorem lax_fanout_count (D f : Nat) (h4 : 4 ≤ D) :
+    (renderTemplate (fanEnvN true D f) "a").out = .ok ∧
+    (renderTemplate (fanEnvN true D f) "a").evs.length = geom f (D + 2) ∧
+    ((f - 1) * (renderTemplate (fanEnvN true D f) "a").evs.length + 1 = f ^ (D + 2) ∨ f = 0) := by
+  obtain ⟨h1, h2⟩ := fanN_template_lax D f h4
+  exact ⟨h1, h2, by rw [h2]; exact geom_closed f (D + 2)⟩
 
 /-- the instance for the default `context_depth_limit = 30`: more than four thousand million executions -/
 theorem lax_cut_counterexample_default :
